@@ -1,4 +1,5 @@
 """C04 - treeinfo and discinfo survive a write/read cycle unchanged."""
+import histories
 from productmd.treeinfo import TreeInfo, Variant
 from productmd.discinfo import DiscInfo
 
@@ -97,13 +98,19 @@ def build(sym, shape, opts, focus):
     return ti, objs
 
 
-def roundtrip(sym, shape, opts, focus):
+def roundtrip(sym, shape, opts, focus, history=False):
+    if history:
+        histories.warm("treeinfo")
     try:
         ti, objs = build(sym, shape, opts, focus)
         written = ti.dumps()
     except (ValueError, TypeError):
         return
     sym.cover("written")
+    if history:
+        first = TreeInfo()
+        first.loads(written)
+        histories.scribble_treeinfo(first)
     back = TreeInfo()
     back.loads(written)
     sym.cover("reloaded")
@@ -220,7 +227,8 @@ def jobs(tier, seed):
     for si, shape in enumerate(SHAPES):
         for k in (range(12) if big else [(seed + si) % 12, (seed + si + 5) % 12]):
             o = _opts(shape, k)
-            out.append({"harness": "roundtrip", "params": {"shape": shape, "opts": o, "focus": _focus(shape, o, k + seed)}, "validate_every": 40})
+            out.append({"harness": "roundtrip", "params": {"shape": shape, "opts": o, "focus": _focus(shape, o, k + seed), "history": (len(out) + seed) % 2 == 1},
+                        "validate_every": 40})
     for fi in range(len(FLOATS)):
         out.append({"harness": "discinfo_roundtrip", "params": {"numbers": ["ALL", 1, 2, 3][fi % 4], "quoted_ok": False, "fi": fi}})
     return out
